@@ -791,6 +791,19 @@ int main(int argc, char** argv) {
         m.c05_type<cctz::civil_year>(per);
         m.c05_cross_order(per);
       } else {
+        // every day of the years next to powers of two (where a narrower integer type or a cast would wrap)
+        if (c == ncycle) {
+          for (int sh : {7, 8, 15, 16, 24, 31, 32, 33, 40, 48, 53, 62}) {
+            for (int sg : {1, -1}) {
+              for (int dy : {-1, 0, 1}) {
+                i128 y = (i128)sg * ((i128)1 << sh) + dy;
+                for (int mo = 1; mo <= 12; ++mo)
+                  for (int d = 1; d <= orc::month_len(y, mo); ++d) m.c17_day(y, mo, d, "power-of-two-year");
+                ctx.stat("C17.power_of_two_years");
+              }
+            }
+          }
+        }
         // C17 random days over the whole int64 year range
         for (long i = 0; i < chunk / 16; ++i) {
           Civ c2 = m.rnd_valid();
